@@ -2,10 +2,11 @@
    Proved: context reset on every path; the release protocol for any fault set (every held lock gets its own release
    command, a key survives only if that very command failed), through rollback of any number of backends, through one
    backend's commit and through Transaction.commit over any number of backends (a failing commit rolls the rest back).
-   NOT proved (covered by the exhaustive fault enumeration of the correspondence only): that the body keeps the lock
-   bookkeeping in step with the store (every lock entry written is recorded in the backend's lock set) and that a
-   fault in the body applies nothing - the hypotheses `wfw` / "lock keys are not data keys" of the exit theorems. *)
-From Cashews Require Import Base.Prelude Spec.TTLMap Model.Tags Model.Txn Model.TxnFault Proofs.TxnFaultProofs.
+   And end to end (C16_block_releases): the body keeps the lock bookkeeping in step with the store whatever fails, so the
+   hypotheses of the exit theorems hold after any body, and after the whole block no lock-shaped key is left in any involved
+   store unless a command of the exit phase itself failed.
+   Not modelled: which python exception class a failing command raises (any exception takes the same path). *)
+From Cashews Require Import Base.Prelude Spec.TTLMap Model.Tags Model.Txn Model.TxnFault Proofs.TxnFaultProofs Proofs.TxnFaultBody.
 
 (* any program, any mode, any fault set: when the block is over the task is no longer inside the transaction *)
 Theorem C16_fault_ctx_reset : forall md U now w used cs, snd (block md U now w used cs) = false.
@@ -81,3 +82,43 @@ Theorem C16_commit_releases : forall U now is_, NoDup is_ -> forall w, wfw w is_
         bB (get_b w' i) lk = None \/ exists p, (pos w <= p < pos w')%nat /\ memn p (faults w) = true)).
 Proof. exact commit_from_spec. Qed.
 Print Assumptions C16_commit_releases.
+
+(* the whole block, any mode, any program over data keys (keys not starting with ':'), any fault set, any number of
+   backends each starting with a consistent lock set: afterwards the task is outside, every involved backend's lock set is
+   empty and no lock-shaped key is left in its store unless a command issued AFTER the body - a commit, rollback or
+   release command - failed *)
+Theorem C16_block_releases : forall md U now w used cs,
+  NoDup used -> (forall i, In i used -> BI w i /\ NoDup (nth i (lorder w) [])) ->
+  prog_ok (length (bks w)) cs -> (forall k, In k U -> lockish k = false) ->
+  let w1 := fst (body md now w cs) in
+  let '(w', exc, inside) := block md U now w used cs in
+  inside = false /\
+  forall i, In i used ->
+    bLocks (get_b w' i) = [] /\
+    forall lk, lockish lk = true ->
+      bB (get_b w' i) lk = None \/ exists p, (pos w1 <= p < pos w')%nat /\ memn p (faults w) = true.
+Proof. exact block_releases. Qed.
+Print Assumptions C16_block_releases.
+
+(* the body alone: the bookkeeping invariant of every backend survives any program and any fault set *)
+Theorem C16_body_keeps_bookkeeping : forall md now cs w, prog_ok (length (bks w)) cs ->
+  let '(w', ok) := body md now w cs in same_shape w w' /\ (forall j, BI w j -> BI w' j).
+Proof. exact body_bi. Qed.
+Print Assumptions C16_body_keeps_bookkeeping.
+
+(* non-vacuity: two backends, LOCKED mode, the third underlying command (the second lock acquisition) fails: the premises
+   hold, the caller sees an exception, and nothing lock-shaped is left although the body stopped half way *)
+Definition ex_w : world := {| bks := [txb0 empty; txb0 empty]; pos := 0; faults := [2%nat]; lorder := [[]; []] |}.
+Definition ex_cs : list (nat * bcmd) := [(0%nat, BSet "a" (VInt 1) 0); (1%nat, BIncr "n"); (0%nat, BDel "b")].
+Example C16_example :
+  (forall i, In i [0%nat; 1%nat] -> BI ex_w i /\ NoDup (nth i (lorder ex_w) [])) /\ prog_ok (length (bks ex_w)) ex_cs /\
+  let '(w', exc, inside) := block MLocked ["a"; "b"; "n"] 0 ex_w [0%nat; 1%nat] ex_cs in
+  (exc, inside, pos w', map (fun i => bLocks (get_b w' i)) [0%nat; 1%nat],
+   map (fun i => map (fun k => isSome (bB (get_b w' i) k)) [":tx_lock:a"; ":tx_lock:n"; ":tx_lock:b"; "a"]) [0%nat; 1%nat])
+  = (true, false, 5%nat, [[]; []], [[false; false; false; false]; [false; false; false; false]]).
+Proof.
+  split; [|split; [|vm_compute; reflexivity]].
+  - intros i [<-|[<-|[]]]; (split; [|constructor]); unfold BI; cbn; (split; [lia|]); (split; [constructor|]);
+      (split; [intros ? []|]); (split; [intros lk _ H; exfalso; apply H; reflexivity|intros ? []]).
+  - repeat constructor; cbn; try lia; intros k [<-|[]]; reflexivity.
+Qed.
